@@ -281,6 +281,27 @@ def check(case: t.Any, ctx: Ctx) -> None:
     if k != 'ok' or rp.a != 9 or rp.b != y.b or set(rp.__pane_set__) != set(y.__pane_set__) | {'a'}:
         ctx.fail('copy', 'replace-change', f"{ident}; {y!r}.__replace__(a=9) gave {rp!r} with set record {getattr(rp, '__pane_set__', None)}")
         return
+    # the instance replace() is called on stays as it was, its record of set fields included (d was never given to y)
+    (rec0, repr0) = (set(y.__pane_set__), repr(y))
+    (k, rp) = outcome(lambda: y.__replace__(d=[1, 2]))
+    if k != 'ok' or rp.d != [1, 2] or set(rp.__pane_set__) != rec0 | {'d'}:
+        ctx.fail('copy', 'replace-change', f"{ident}; {y!r}.__replace__(d=[1, 2]) gave {rp!r} with set record {getattr(rp, '__pane_set__', None)}")
+        return
+    if set(y.__pane_set__) != rec0 or repr(y) != repr0:
+        ctx.fail('copy', 'replace-modifies-original', f"{ident}; after y.__replace__(d=[1, 2]) the original is {y!r} with set record {sorted(y.__pane_set__)}; "
+                 f"before: {repr0} with {sorted(rec0)}")
+        return
+    # several changes at once: each is converted as its own field's type
+    (k, rp) = outcome(lambda: y.__replace__(a=8, c=[6], b='zz'))
+    if k != 'ok' or (rp.a, rp.b, rp.c) != (8, 'zz', (6,)) or type(rp.a) is not int:
+        ctx.fail('copy', 'replace-several', f"{ident}; __replace__(a=8, c=[6], b='zz') gave {short(rp, 100)}")
+        return
+    for (changes, why) in (({'a': '5', 'b': 'zz'}, 'a str for the int field a'), ({'c': 'xy', 'b': 'zz'}, 'a str for the tuple field c'),
+                           ({'b': 5, 'a': 6}, 'an int for the str field b'), ({'a': 2.5, 'd': [1]}, 'a float for the int field a')):
+        (k, rp) = outcome(lambda: y.__replace__(**changes))
+        if k != 'ce':
+            ctx.fail('copy', 'replace-validates', f"{ident}; __replace__(**{changes}) ({why}) should raise ConvertError, got {k}: {short(rp, 80)}")
+            return
     (k, rp) = outcome(lambda: y.__replace__(a='not an int'))
     if k != 'ce':
         ctx.fail('copy', 'replace-validates', f"{ident}; __replace__(a='not an int') should raise ConvertError, got {k}: {short(rp, 80)}")
